@@ -189,12 +189,13 @@ CHECKS["C07"] = dict(
 CHECKS["C16"] = dict(
     level="exploration",
     engine="enumx",
-    rule="raw: every string of <= 5 (quick) / 6 (thorough) symbols over a 17-symbol hostile alphabet through the classic, UTF-8 and fallback parsers (singular and plural). roundtrip: every matcher 4 types x names <= 2 symbols x values <= 3 / 4 symbols (valid UTF-8), singly, as a list, and all ordered pairs of a 216-matcher set. semantics: all pairs of 88 matchers x 36 label sets. distinct = distinct accepted inputs / names / connectives",
+    rule="raw: every string of <= 5 (quick) / 6 (thorough) symbols over a 17-symbol hostile alphabet through the classic, UTF-8 and fallback parsers (singular and plural). roundtrip: every matcher 4 types x names <= 2 symbols x values <= 3 / 4 symbols (valid UTF-8), singly, as a list, and all ordered pairs of a 216-matcher set. semantics: all pairs of 88 matchers x 36 label sets, and every compiling regex of <= 4 (5) symbols over 14 regex symbols x every value of <= 3 symbols. consumers: each of 112 matchers (and pairs) as child-route matchers, inhibition target matchers, API silence matchers and filter= parameter on an assembled App x 11 alerts. distinct = distinct accepted inputs / names / connectives / matcher lists",
     technique="bounded-exhaustive enumeration of all strings / matchers up to a length bound against the statement's laws (fallback law, print-parse round trip, reference match semantics)",
-    level_text="No input makes a parser panic or hang (watchdog); the fallback result is the classic one on disagreement, the common one otherwise, classic-only inputs are accepted; every printable matcher parses back to the identical (type, name, value) in UTF-8 and fallback mode and in classic mode for classic names; Matchers.Matches / MatcherSet.Matches equal the reference (missing label = empty, whole-string compare, fully anchored regex).",
+    level_text="No input makes a parser panic or hang (watchdog); the fallback result is the classic one on disagreement, the common one otherwise, classic-only inputs are accepted; every printable matcher parses back to the identical (type, name, value) in UTF-8 and fallback mode and in classic mode for classic names; Matchers.Matches / MatcherSet.Matches equal the reference (missing label = empty, whole-string compare, fully anchored regex); routes, inhibition rules, silences and the API filters of an assembled App give that same verdict for every alert of a small population.",
     level_note="Strings longer than the bound and symbols outside the alphabet are not explored. The singular entry points reject a leading '{' or trailing '}' by design; those prints are checked through the list form.",
     assumptions=E4_ASSUME,
-    units=[dict(pkg="matcher/compat", test="TestVerifC16", shards_quick=16, shards_thorough=16, budget_quick=200, budget_thorough=1500)],
+    units=[dict(pkg="matcher/compat", test="TestVerifC16", shards_quick=16, shards_thorough=16, budget_quick=200, budget_thorough=1500),
+           dict(pkg="app", test="TestVerifC16Api", shards_quick=8, shards_thorough=16, budget_quick=200, budget_thorough=900)],
 )
 
 CHECKS["C15"] = dict(
